@@ -45,9 +45,16 @@ def amountOf (cs : DecCoins) (d : String) : Option Int := Coins.amountOf cs d
 /-- `MinDec` -/
 def minDec (x y : Int) : Int := if x < y then x else y
 
+/-- the loop of `DecCoins.Intersect`: coin by coin the smaller of the coin's amount and `coinsB.AmountOf(denom)` -/
+def intersectRaw : DecCoins → DecCoins → Option DecCoins
+  | [], _ => some []
+  | c :: rest, b =>
+    match amountOf b c.1 with
+    | none => none
+    | some x => (intersectRaw rest b).map fun l => (c.1, minDec c.2 x) :: l
+
 /-- `DecCoins.Intersect` -/
-def intersect (a b : DecCoins) : Option DecCoins :=
-  (a.mapM fun c => (amountOf b c.1).map fun x => (c.1, minDec c.2 x)).map removeZero
+def intersect (a b : DecCoins) : Option DecCoins := (intersectRaw a b).map removeZero
 
 /-- the loop shared by `MulDec`, `MulDecTruncate`, `QuoDec`, `QuoDecTruncate`: every amount goes through `f`,
 non-zero results are added to the running result as one-coin sets -/
